@@ -72,7 +72,8 @@ var (
 )
 
 // ErrKey is a short, position-free digest of the failure: the message of the first compiler
-// diagnostic (file:line:col: message) when there is one, else the first non-empty output line.
+// diagnostic (file:line:col: message) plus a digest of the other distinct diagnostics when there
+// are any, else the first non-empty output line.
 func (r Result) ErrKey() string {
 	out := r.GenOut
 	if r.GenExit == 0 {
@@ -82,19 +83,35 @@ func (r Result) ErrKey() string {
 		return r.Collision
 	}
 	first := ""
+	var diags []string
+	seen := map[string]bool{}
 	for _, l := range strings.Split(out, "\n") {
 		l = strings.TrimSpace(l)
 		if l == "" || strings.HasPrefix(l, "#") || strings.HasPrefix(l, "goroutine ") {
 			continue
 		}
 		if m := reDiag.FindStringSubmatch(l); m != nil {
-			return m[1]
+			if !seen[m[1]] {
+				seen[m[1]] = true
+				diags = append(diags, m[1])
+			}
+			continue
 		}
 		if first == "" {
 			first = reScratch.ReplaceAllString(l, "")
 		}
 	}
-	return first
+	if len(diags) == 0 {
+		return first
+	}
+	if len(diags) == 1 {
+		return diags[0]
+	}
+	// the other diagnostics take part in the key (as a digest) so that a second defect in the
+	// same project is not masked by a known one
+	rest := append([]string{}, diags[1:]...)
+	sort.Strings(rest)
+	return fmt.Sprintf("%s [+%d more: %s]", diags[0], len(rest), hash(strings.Join(rest, "\n"))[:8])
 }
 
 func hash(s string) string {
@@ -212,6 +229,9 @@ var memo struct {
 	n int // projects actually run
 }
 
+// runSem bounds the number of projects in flight, whoever asks for them.
+var runSem = make(chan struct{}, runtime.NumCPU())
+
 type memoEntry struct {
 	once sync.Once
 	res  *Result
@@ -229,6 +249,8 @@ func runMemo(cs *Case, keep bool) *Result {
 	}
 	memo.Unlock()
 	e.once.Do(func() {
+		runSem <- struct{}{}
+		defer func() { <-runSem }()
 		r := runCase(cs, keep)
 		e.res = &r
 		memo.Lock()
@@ -258,7 +280,7 @@ func progress(total int) {
 
 // runAll evaluates cases on a worker pool, results in case order. Stops handing out work when
 // the budget expires (returned results are nil for cases not run).
-func runAll(c *common.Check, cases []*Case, keep bool) []*Result {
+func runAll(c *common.Check, cases []*Case, keep bool, grace bool) []*Result {
 	out := make([]*Result, len(cases))
 	var wg sync.WaitGroup
 	idx := make(chan int)
@@ -277,7 +299,7 @@ func runAll(c *common.Check, cases []*Case, keep bool) []*Result {
 		}()
 	}
 	for i := range cases {
-		if c.Expired() {
+		if (!grace && c.Expired()) || (grace && time.Now().After(graceDeadline(c))) {
 			break
 		}
 		idx <- i
@@ -435,7 +457,7 @@ func main() {
 		probe.Cleanup()
 		common.Broken("%v", err)
 	}
-	results := runAll(c, cases, keep)
+	results := runAll(c, cases, keep, false)
 	evaluate(c, cases, results, keep)
 	if !keep {
 		probe.Cleanup()
@@ -476,7 +498,7 @@ func evaluate(c *common.Check, cases []*Case, results []*Result, keep bool) {
 		}
 	}
 	isoSeen := map[string]bool{}
-	for len(frontier) > 0 && !c.Expired() {
+	for len(frontier) > 0 && time.Now().Before(graceDeadline(c)) {
 		var kids []*Case
 		parent := map[string]*Result{}
 		for _, r := range frontier {
@@ -497,7 +519,7 @@ func evaluate(c *common.Check, cases []*Case, results []*Result, keep bool) {
 		}
 		frontier = nil
 		failedKids := map[*Result]int{}
-		for i, kr := range runAll(c, kids, keep) {
+		for i, kr := range runAll(c, kids, keep, true) {
 			if kr == nil {
 				continue
 			}
@@ -521,17 +543,16 @@ func evaluate(c *common.Check, cases []*Case, results []*Result, keep bool) {
 			}
 		}
 	}
-	for _, r := range results {
-		if r == nil || r.OK() {
-			continue
+	for _, r := range frontier { // grace deadline hit: report what is left without isolating it
+		if len(r.Case.Atoms) == 1 {
+			report(c, r.Case.Atoms[0].Sig()+":"+r.Stage(), r)
+		} else {
+			report(c, "naming-packed:"+r.Case.Schema+":"+r.Stage()+":"+r.ErrKey(), r)
 		}
-		switch r.Case.Kind {
-		case "naming":
-			// reported by the isolation above
-		case "small":
+	}
+	for _, r := range results {
+		if r != nil && !r.OK() && r.Case.Kind == "small" {
 			report(c, r.Case.Schema+":"+r.Stage()+":"+r.ErrKey(), r)
-		default:
-			// handled below (minimisation)
 		}
 	}
 	// Failing feature configurations are minimised (greedy, fixed order): drop each deviation,
@@ -545,13 +566,10 @@ func evaluate(c *common.Check, cases []*Case, results []*Result, keep bool) {
 	}
 	minimal := make([]Config, len(failing))
 	var wg sync.WaitGroup
-	sem := make(chan struct{}, runtime.NumCPU())
 	for i, r := range failing {
 		wg.Add(1)
 		go func(i int, r *Result) {
 			defer wg.Done()
-			sem <- struct{}{}
-			defer func() { <-sem }()
 			minimal[i] = minimise(c, r, keep)
 		}(i, r)
 	}
@@ -595,8 +613,8 @@ func evaluate(c *common.Check, cases []*Case, results []*Result, keep bool) {
 	c.Cov["completed_projects"] = completed
 	c.Cov["exhaustive"] = completed == len(cases)
 	c.Cov["stages"] = stages
-	c.Cov["generate_cpu_s"] = int(genS)
-	c.Cov["build_cpu_s"] = int(buildS)
+	c.Cov["generate_wall_sum_s"] = int(genS)
+	c.Cov["build_wall_sum_s"] = int(buildS)
 	c.Cov["bounds"] = bounds(c.Tier, cases)
 	c.Assume = assumptions
 }
@@ -628,38 +646,87 @@ func splitAtoms(atoms []Atom) []NamingProject {
 	return out
 }
 
-// minimise returns a 1-minimal failing configuration below r's (same stage and diagnostic).
+// graceDeadline: enumeration stops at the budget; isolation and minimisation of failures that
+// were already found may use five more minutes so that signatures stay minimal.
+func graceDeadline(c *common.Check) time.Time {
+	if c.Deadline.IsZero() {
+		return time.Now().Add(time.Hour)
+	}
+	return c.Deadline.Add(5 * time.Minute)
+}
+
+// minimise returns a minimal failing configuration below r's (same stage and diagnostics):
+// first the smallest subset of the deviations that still fails under the same layout, then every
+// layout dimension that can be reset to the baseline. Candidates of one step run in parallel.
 func minimise(c *common.Check, r *Result, keep bool) Config {
-	cur := r.Case.Config
-	same := func(cfg Config) bool {
-		if c.Expired() {
-			return false
-		}
-		x := runMemo(featureCase(cfg), keep)
-		return !x.OK() && x.Stage() == r.Stage() && x.ErrKey() == r.ErrKey()
-	}
-	for _, d := range r.Case.Config.Dev {
-		var rest []string
-		for _, e := range cur.Dev {
-			if e != d {
-				rest = append(rest, e)
+	same := func(cfgs []Config) []bool {
+		out := make([]bool, len(cfgs))
+		var wg sync.WaitGroup
+		for i, cfg := range cfgs {
+			if time.Now().After(graceDeadline(c)) {
+				break
 			}
+			wg.Add(1)
+			go func(i int, cfg Config) {
+				defer wg.Done()
+				x := runMemo(featureCase(cfg), keep)
+				out[i] = !x.OK() && x.Stage() == r.Stage() && x.ErrKey() == r.ErrKey()
+			}(i, cfg)
 		}
-		if t := (Config{Layout: cur.Layout, Dev: rest}); same(t) {
-			cur = t
+		wg.Wait()
+		return out
+	}
+	cur := r.Case.Config
+	// 1. deviations: proper subsets, smallest first
+	var subs []Config
+	if len(cur.Dev) > 0 {
+		subs = append(subs, Config{Layout: cur.Layout})
+	}
+	if len(cur.Dev) == 2 {
+		subs = append(subs, Config{Layout: cur.Layout, Dev: []string{cur.Dev[0]}}, Config{Layout: cur.Layout, Dev: []string{cur.Dev[1]}})
+	}
+	for i, ok := range same(subs) {
+		if ok {
+			cur = subs[i]
+			break
 		}
 	}
+	// 2. layout dimensions
+	var cands []Config
+	var dims []int
 	for dim := 0; dim < 4; dim++ {
 		l, changed := cur.Layout.ResetDim(dim)
-		if !changed {
-			continue
-		}
-		ok := true
+		ok := changed
 		for _, d := range cur.Dev {
 			ok = ok && applicable(d, l)
 		}
-		if t := (Config{Layout: l, Dev: cur.Dev}); ok && same(t) {
-			cur = t
+		if ok {
+			cands = append(cands, Config{Layout: l, Dev: cur.Dev})
+			dims = append(dims, dim)
+		}
+	}
+	var good []int
+	for i, ok := range same(cands) {
+		if ok {
+			good = append(good, dims[i])
+		}
+	}
+	if len(good) == 1 {
+		cur.Layout, _ = cur.Layout.ResetDim(good[0])
+	} else if len(good) > 1 {
+		all := cur.Layout
+		for _, d := range good {
+			all, _ = all.ResetDim(d)
+		}
+		if same([]Config{{Layout: all, Dev: cur.Dev}})[0] {
+			cur.Layout = all
+		} else { // resets interact: fall back to one at a time
+			for _, d := range good {
+				l, _ := cur.Layout.ResetDim(d)
+				if same([]Config{{Layout: l, Dev: cur.Dev}})[0] {
+					cur.Layout = l
+				}
+			}
 		}
 	}
 	return cur
